@@ -44,6 +44,7 @@ def L(q, t=None):
 PROPS = {
     "C12": dict(lanes=L(["rel", "dbg"], ["rel", "dbg"])),
     "C13": dict(lanes=L(["rel", "dbg"])),
+    "C32": dict(lanes=L(["rel", "dbg"])),
 }
 
 _built = set()
